@@ -667,7 +667,8 @@ def run(tier: str, seed: int, replay=None) -> int:
         "vocabulary: variables over explicit domains, literals (ints, int lists), attribute chains, comparisons, contains/in_, and_, or_, "
         "not_, entity/set_of; quantifier-free (exists / for_all are eager consumers and are not modelled here); predicates, "
         "flatten, indexing, calls, rule trees are not modelled",
-        "domains are duplicate-free (a repeated element is yielded twice on the first enumeration and once afterwards: C03's finding) "
+        "domains are duplicate-free (since 1997e3c a repeated element is pulled from the generator but skipped by the cache, so it is yielded "
+        "once; the model enumerates D x as given and does not model the skipped pull) "
         "and every variable has its own generator; queries are tree-shaped (no node object used twice)",
         "one consumer per query: iterators resumed in an interleaved fashion are C03's subject",
         "the demand bound (Spec bit 4) is relative to a single-pass nested-loop enumerator and is applied to union-free conditions",
@@ -690,6 +691,9 @@ def run(tier: str, seed: int, replay=None) -> int:
     ok_spec, log = core.coq_make(["Base/Sx.vo", "Eql/TraceSpec.vo"])
     rep.oblige("build:spec", ok_spec, "" if ok_spec else core.first_error(log))
     model_ok = core.standard_proof_steps(rep, PROP, ["Props/C10.vo"])
+    from translator import pins
+    pins.oblige(rep, str(core.REPO), "eql", "the event-log model (Eql/Trace.v)")
+    pins.oblige(rep, str(core.REPO), "c10", "the event-log model (Eql/Trace.v: AND / ElseIf / Union / Not, optimize_or, domain set-up) and the silent-construction scenarios")
     if tier == "thorough" and model_ok:
         rc, out = core.sh(["timeout", "900", "coqchk", "-silent", "-o", "-Q", ".", "Krrood", "Krrood.Props.C10"], cwd=core.COQ, timeout=930)
         rep.oblige("coqchk:Props/C10.vo", rc == 0 and "Axioms: <none>" in out.replace("\n", " ").replace("  ", " "), out.strip()[-400:])
